@@ -12,6 +12,8 @@ import (
 	"verif/mc"
 
 	"github.com/makiuchi-d/gozxing"
+	"github.com/makiuchi-d/gozxing/datamatrix"
+	dmenc "github.com/makiuchi-d/gozxing/datamatrix/encoder"
 	"github.com/makiuchi-d/gozxing/qrcode"
 	qrdec "github.com/makiuchi-d/gozxing/qrcode/decoder"
 	qrenc "github.com/makiuchi-d/gozxing/qrcode/encoder"
@@ -219,4 +221,52 @@ func runHugeSymbols() {
 		}
 	}
 	runJobs("huge 1-D symbols (Codabar with 100 030 and 150 031 digits: 1.1 and 1.65 million modules): requested widths k x natural width -1, +0, +1 (k = 1..3; quick: k <= 2), height 1, margins {default, 0}", jobs)
+}
+
+// Data Matrix with the size hints. MIN_SIZE and MAX_SIZE bound the SYMBOL in modules; the image
+// still has the requested size whenever the chosen symbol fits it. Symbols chosen under a
+// maximum larger than, equal to and smaller than typical requests, under a minimum, under both,
+// and with a forced shape next to a maximum.
+var hintedDM []string
+
+func init() {
+	dim := func(w, h int) *gozxing.Dimension {
+		d, _ := gozxing.NewDimension(w, h)
+		return d
+	}
+	add := func(name, content string, h hintMap) {
+		hintedDM = append(hintedDM, name)
+		hintedQR[name] = func() *symbol {
+			s := &symbol{Kind: "dm", Name: name, Content: content, format: gozxing.BarcodeFormat_DATA_MATRIX,
+				newWriter: func() gozxing.Writer { return datamatrix.NewDataMatrixWriter() }, extra: h}
+			out, err, pmsg, site := s.render(0, 0, 0, false)
+			if pmsg != "" {
+				chk.Violation("C14/panic/"+site, fmt.Sprintf("panic %q rendering %s at 0x0", pmsg, name), caseRec{name, content, 0, 0, 0})
+				return nil
+			}
+			if err != nil || out == nil {
+				panic(fmt.Sprintf("harness: %s refused: %v", name, err))
+			}
+			s.setMatrix(matrixOf(out))
+			return s
+		}
+	}
+	MIN, MAX, SHAPE := gozxing.EncodeHintType(gozxing.EncodeHintType_MIN_SIZE), gozxing.EncodeHintType(gozxing.EncodeHintType_MAX_SIZE), gozxing.EncodeHintType(gozxing.EncodeHintType_DATA_MATRIX_SHAPE)
+	add("dm+max16", "A", hintMap{MAX: dim(16, 16)})
+	add("dm+max10", "A", hintMap{MAX: dim(10, 10)})
+	add("dm+min14", "A", hintMap{MIN: dim(14, 14)})
+	add("dm+min12+max20", "A", hintMap{MIN: dim(12, 12), MAX: dim(20, 20)})
+	add("dm+rect+max32x8", "RECT", hintMap{SHAPE: dmenc.SymbolShapeHint_FORCE_RECTANGLE, MAX: dim(32, 8)})
+	add("dm+max40", "Geometry-14 Geometry-14", hintMap{MAX: dim(40, 40)})
+	add("dm+min0x20", "A", hintMap{MIN: dim(0, 20)})
+}
+
+func runHintedDM() {
+	var jobs []job
+	for _, n := range hintedDM {
+		if s := hintedQR[n](); s != nil {
+			jobs = append(jobs, squareJobs(s, defaultMargin, 3)...)
+		}
+	}
+	runJobs("Data Matrix with MIN_SIZE / MAX_SIZE hints (maximum above, at and below typical requests; minimum; both; forced rectangle next to a maximum; one-directional minimum): every (width,height) in 0..3*natural+2 squared", jobs)
 }
